@@ -567,7 +567,7 @@ pub fn c13(a: &Args) -> CaseSet {
                 if o.bin.is_some() { continue }     // the claim is about unary-only operators and constants
                 let name = o.repr.clone();
                 if is_alpha_name(&name) {
-                    for ext in ["4", "x", "_", "α", "Z9"] {
+                    for ext in ["4", "x", "_", "α", "Z9", "ω", "Ω", "Α", "z", "Z", "A", "a", "0", "9", "ωt", "Ωmega"] {   // both ends of every character class
                         let w = format!("{name}{ext}");
                         // skip words that some other table entry decides: a binary-capable name that is a prefix
                         // (no look-ahead for those), or a longer name that matches the word
@@ -811,6 +811,36 @@ pub fn c09(a: &Args) -> CaseSet {
     let mut cs = CaseSet::default();
     let mut r = Rng::new(a.seed ^ 0x09);
     let tb = float_table();
+    // products of powers and sums at one level: every index sequence of length 2 and 3, iterated, against central
+    // differences of the derivative one step shorter (variables vanish on the way; mixed partials in both orders)
+    for text in ["x*y^2", "(a+b)*c^3", "x^2*y^3*z", "a*b*c", "x*y^2+z*x", "y^2*x-z/y", "a^2*c^3+b", "x*z^2/y"] {
+        set_table(&tb);
+        use exmex::Express;
+        let fx = FE::parse_wo_compile(Box::leak(text.to_string().into_boxed_str())).unwrap();
+        let nv = fx.var_names().len();
+        let mut seqs: Vec<Vec<usize>> = vec![];
+        for i in 0..nv { for j in 0..nv { seqs.push(vec![i, j]); for k in 0..nv { if (i + j + k) % 2 == 0 { seqs.push(vec![i, j, k]) } } } }
+        for (n, idxs) in seqs.into_iter().enumerate() {
+            let mk = |w: usize| match w % 3 { 0 => Prog::Flat(text.to_string()), 1 => Prog::Deep(text.to_string()), _ => Prog::FlatWo(text.to_string()) };
+            let qs = vec![Query::Vars, Query::Eval(nv)];
+            let ip = cs.add(&tb, Prog::Partial(idxs[..idxs.len() - 1].to_vec(), 0, Box::new(mk(n))), qs.clone(), format!("prefix d/d{:?} {text}", &idxs[..idxs.len() - 1]), "polynomial-prefix", 3, |_| (None, String::new()));
+            let dprev = cs.cases[ip].obs[1].clone();
+            let (tb2, idxs2) = (tb.clone(), idxs.clone());
+            cs.add(&tb, Prog::Partial(idxs.clone(), 0, Box::new(mk(n + 1))), qs.clone(), format!("d/d{idxs:?} {text}"), "polynomial-sequences", 3, move |obs| {
+                match (&dprev, &obs[1]) {
+                    (Obs::T(dp), Obs::T(dl)) => {
+                        let j = *idxs2.last().unwrap();
+                        for pt in points(nv) {
+                            if let Some(want) = num_partial(dp, &tb2, &pt, j) { let got = interp(dl, &tb2, &pt);
+                                if !got.is_finite() || (got - want).abs() > 2e-3 * (1.0 + want.abs()) { return (Some(false), format!("d/d{j} of the previous derivative is {want} at {pt:?} (central differences), the expression gives {got}")) } }
+                        }
+                        (Some(true), String::new())
+                    }
+                    _ => (Some(false), format!("{} / {}", pretty_obs(&obs[0]), pretty_obs(&obs[1]))),
+                }
+            });
+        }
+    }
     for i in 0..a.n {
         let ch = gen_diff(&mut r, &tb, 2, false, false);
         let text = render(&ch, &tb, &mut r, &RenderCfg::plain());
@@ -844,6 +874,19 @@ pub fn c09(a: &Args) -> CaseSet {
             }
         });
         if !out_of_range && !idxs.is_empty() {
+            // the last step against central differences of the derivative before it (an oracle that does not use partial twice)
+            let prefix = Prog::Partial(idxs[..idxs.len() - 1].to_vec(), mode, Box::new(mk(&mut r)));
+            let ip = cs.add(&tb, prefix, qs.clone(), format!("prefix d/d{:?} {text}", &idxs[..idxs.len() - 1]), "prefix-of-sequence", n_operands(&ch).max(2), |_| (None, String::new()));
+            if let (Obs::T(dprev), Obs::T(dlast)) = (&cs.cases[ip].obs[1].clone(), &cs.cases[i1].obs[1].clone()) {
+                let j = *idxs.last().unwrap();
+                let mut ok = true; let mut note = String::new();
+                for pt in points(nv) {
+                    if !all_finite(dprev, &tb, &pt) || on_boundary(dprev, &tb, &pt, j) { continue }
+                    if let Some(want) = num_partial(dprev, &tb, &pt, j) { let got = interp(dlast, &tb, &pt);
+                        if got.is_finite() && (got - want).abs() > 2e-3 * (1.0 + want.abs()) { ok = false; note = format!("d/d{j} of the previous derivative is {want} at {pt:?} (central differences), the expression gives {got}"); } }
+                }
+                if cs.cases[i1].oracle_ok != Some(false) && !ok { cs.cases[i1].oracle_ok = Some(false); cs.cases[i1].oracle_note = note; }
+            }
             let i2 = cs.add(&tb, seq, qs.clone(), format!("sequential d/d{idxs:?} {text}"), "sequential-steps", n_operands(&ch).max(2), |_| (None, String::new()));
             // iterated == sequential (numerically, wherever both are finite); mixed partials symmetric
             let (o1, o2) = (cs.cases[i1].obs.clone(), cs.cases[i2].obs.clone());
